@@ -1,12 +1,18 @@
 (* C01 — every operation behaves exactly like std String on the same value. *)
 From Coq Require Import Lia Arith ZArith List Bool.
-From LS Require Import Base Utf8 Utf8Spec Utf8Facts Cmd Impl NumModel Num Exec Specs WF Spec Refine Main.
+From LS Require Import Base Utf8 Utf8Spec Utf8Facts Cmd Impl NumModel Num Exec Specs WF Spec Refine Main Skeleton.
 From LSGen Require Import GenSrc.
 Open Scope N_scope.
 
 (* tie A: the generated integer tables / LUT satisfy the side conditions every theorem below assumes *)
 Theorem C01_gen_ok : gen_ok.
 Proof. split; [vm_compute; reflexivity|]. intros t. destruct t; vm_compute; reflexivity. Qed.
+
+(* tie A: every hand-modelled function still makes the same significant calls in the same order as on the tree the model
+   was written against (allocator, atomics, copies, assertions, the six core Repr functions; debug_assert!s and the
+   verification hooks are ignored) *)
+Theorem C01_source_skeleton : skeletons = expected_skeletons.
+Proof. vm_compute. reflexivity. Qed.
 
 (* one step: well-formedness is preserved, nothing undefined is reached, statics are untouched, other slots are
    untouched, and unless the step reports an allocation failure the texts and the returned value are Spec's *)
@@ -54,6 +60,7 @@ Proof.
 Qed.
 
 Print Assumptions C01_gen_ok.
+Print Assumptions C01_source_skeleton.
 Print Assumptions C01_step.
 Print Assumptions C01_histories.
 Print Assumptions C01_read.
